@@ -266,7 +266,22 @@ pub fn run(tier: &str, seed: u64) -> Report {
       if !cfg.allow_inconsistent_finals {
         new_world.make_consistent();
       }
-      let specs_to_reload: Vec<ModuleSpecifier> = edited.iter().map(|i| new_world.specs[*i].clone()).collect();
+      // a changed source is also named by the redirect sources leading to it: reload through one of
+      // them (a several-hop chain head when there is one) every now and then
+      let specs_to_reload: Vec<ModuleSpecifier> = edited
+        .iter()
+        .map(|i| {
+          let target = &new_world.specs[*i];
+          let mut heads: Vec<&ModuleSpecifier> = graph.redirects.keys().filter(|a| graph.resolve(a) == target).collect();
+          heads.sort_by_key(|a| (graph.redirects.get(*a) == Some(target)) as u8);
+          if !heads.is_empty() && rng.chance(1, 2) {
+            report.count(if graph.redirects.get(heads[0]) == Some(target) { "reload-through-redirect-source:one-hop" } else { "reload-through-redirect-source:several-hops" });
+            heads[0].clone()
+          } else {
+            target.clone()
+          }
+        })
+        .collect();
       let desc = json!({"world_before": cur_world.describe(), "world_after": new_world.describe(), "reload": specs_to_reload.iter().map(|s| s.as_str()).collect::<Vec<_>>(), "edit_step": e});
       batch.descs.push(desc.clone());
       let loader = ScriptedLoader::new(&new_world);
